@@ -368,6 +368,49 @@ class Gen:
     self.block(self.i(0, 3), depth + 1, ro, allow_loop=False)
     self.out.append(("label", lab))
 
+  def stall_branch(self, ro):
+    """a taken branch right behind instructions that wait in M / W (writes to the manager under sink back-pressure,
+    loads under memory stalls), with a non-idempotent instruction at the branch target: a squash or redirect that is
+    repeated while the branch waits shows as the target executing twice"""
+    a = self.src(ro)
+    t = POOL[self.i(0, len(POOL) - 1)]
+    self.emit(("addi", t, a, (1, -1, 4, 2047)[self.i(0, 3)]), t)
+    regs = (t, a) if t != a else (t, 0)
+    k = self.i(0, 3)
+    if k == 0: self.csrw(ro); self.csrw(ro)
+    elif k == 1: self.csrw(ro); self.csrw(ro); self.csrw(ro)
+    elif k == 2: self.lw(); self.csrw(ro)
+    else: self.csrw(ro); self.lw()
+    lab = self.label()
+    self.emit(("bne", regs[0], regs[1], lab))
+    for _ in range(self.i(0, 2)): self.alu(ro)
+    self.out.append(("label", lab))
+    r = POOL[self.i(0, len(POOL) - 1)]
+    self.emit(("addi", r, r, (1, 3, -1, 0x155)[self.i(0, 3)]), r)
+    if self.i(0, 1): self.emit(("csrw", T.CSR_PROC2MNGR, r))
+
+  def far_branch(self, ro):
+    """taken branches whose target is more than 2 KiB away, forwards and backwards (offsets that need bit 11 and the
+    sign bit of the B-immediate to differ); the padding in between is never executed"""
+    self.far_done = True
+    a = self.src(ro)
+    t = POOL[self.i(0, len(POOL) - 1)]
+    self.emit(("addi", t, a, 1), t)
+    regs = (t, a) if t != a else (t, 0)
+    fwd, back, end = self.label(), self.label(), self.label()
+    r1 = [r for r in POOL if r not in regs][0]
+    r2 = [r for r in POOL if r not in regs][1]
+    self.emit(("bne", regs[0], regs[1], fwd))
+    self.out.append(("label", back))
+    self.emit(("addi", r1, r1, 1), r1)
+    self.emit(("bne", regs[0], regs[1], end))
+    for _ in range(self.i(513, 700)): self.out.append(("nop",))
+    self.out.append(("label", fwd))
+    self.emit(("addi", r2, r2, 3), r2)
+    self.emit(("bne", regs[0], regs[1], back))
+    self.out.append(("label", end))
+    self.emit(("csrw", T.CSR_PROC2MNGR, r1)); self.emit(("csrw", T.CSR_PROC2MNGR, r2))
+
   def loop(self, ro, depth, nloop):
     rc = LOOP_REGS[nloop]
     n = self.i(1, 8) if nloop == 0 else self.i(1, 3)
@@ -386,7 +429,7 @@ class Gen:
 
   ITEMS = ["alu"] * 22 + ["addi"] * 10 + ["lw"] * 8 + ["sw"] * 8 + ["dyn_mem"] * 5 + ["store_load"] * 6 + \
           ["load_use"] * 6 + ["csrr"] * 4 + ["csrw"] * 8 + ["csr_pair"] * 4 + ["fwd"] * 11 + ["loop"] * 7 + \
-          ["nop"] * 2
+          ["nop"] * 2 + ["stall_branch"] * 7 + ["far_branch"] * 1
 
   def block(self, nitems, depth, ro, allow_loop=True, nloop=0):
     for _ in range(nitems):
@@ -395,7 +438,11 @@ class Gen:
         kind = "alu"
       if kind == "fwd" and depth >= 4:
         kind = "addi"
-      if kind == "alu": self.alu(ro)
+      if kind == "far_branch" and (depth > 0 or getattr(self, "far_done", False)):
+        kind = "stall_branch"
+      if kind == "stall_branch": self.stall_branch(ro)
+      elif kind == "far_branch": self.far_branch(ro)
+      elif kind == "alu": self.alu(ro)
       elif kind == "addi": self.addi(ro)
       elif kind == "lw": self.lw()
       elif kind == "sw": self.sw(ro)
@@ -475,7 +522,7 @@ def proc_cases(draw, max_items=14, max_steps=260):
     "src_delay": draw(st.one_of(st.integers(0, 3), st.integers(0, 15))),
     "sink_delay": draw(st.one_of(st.integers(0, 3), st.integers(0, 15))),
     "mem_stall_prob": draw(st.sampled_from([0, 0.3, 0.5, 0.6])),
-    "mem_latency": draw(st.sampled_from([1, 2, 3, 4, 5])),
+    "mem_latency": draw(st.sampled_from([1, 2, 2, 3, 4, 5])),
     "stall_seed": draw(st.integers(0, 2 ** 16)),
     "sched_seed": draw(st.integers(0, 2 ** 16)),
   }
@@ -506,6 +553,7 @@ def one_proc(ctx, case):
       ctx.label("prog_with_" + k)
   for k in ("br_taken_fwd", "br_taken_back", "br_nottaken_fwd", "br_nottaken_back"):
     ctx.label("dyn_" + k, stats.get(k, 0))
+  if len(case["program"]) > 500: ctx.label("prog_with_far_branches_over_2KiB")
   ctx.label(f"cfg_mem_latency_{cfg['mem_latency']}")
   ctx.label(f"cfg_stall_{cfg['mem_stall_prob']}")
   ctx.label("cfg_src_delay_" + ("0" if cfg["src_delay"] == 0 else "1-3" if cfg["src_delay"] <= 3 else "4-15"))
